@@ -11,6 +11,7 @@ Partial by nature (named so in the manifest): the atomicity of `atomic.AddUint32
 model and the kernel's side of netlink are assumptions of the interleaving model, not theorems.
 -/
 import LA.Proofs.Uapi
+import LA.Proofs.StateFacts
 
 namespace LA.Netlink
 open LA.Spec
@@ -189,3 +190,9 @@ example : parseAudit (Hdr.bytes ⟨4000000000, 1305, 0, 0, 0⟩ ++ [1, 2]) = .ok
   decide
 
 end LA.Netlink
+
+/-! ### the code keeps nothing between calls that the model does not have -/
+
+/-- Outside `init`, no function of the root package writes a package-level variable, takes the address of one or calls a
+sync/atomic method on one (regenerated list, see LA.Proofs.StateFacts): all state is in the object the model is given. -/
+theorem C18_state_is_in_the_object : LA.StateFacts.ofPkg "" = [] := by decide
